@@ -2,7 +2,8 @@
 
 `Deps(fn).sources(expr)` is the set of atomic sources reachable from expr through local assignments, loop targets,
 comprehensions and container mutations (`x.append(v)`, `x.extend(v)`, `x.add(v)`, `x.update(v)`, `x[k] = v`,
-`x[k].append(v)` all make x depend on k and v):
+`x[k].append(v)` all make x depend on k and v - and on the tests of the if / while
+statements the mutation sits in):
 
     param:<name>        a parameter of fn
     name:<id>           a free / global name
@@ -34,15 +35,27 @@ class Deps:
             if isinstance(n, ast.Call) and isinstance(n.func, ast.Attribute) and n.func.attr in MUTATORS:
                 root, keys = self._container(n.func.value)
                 if root is not None:
-                    self.binds.setdefault(root, []).extend(list(n.args) + [k.value for k in n.keywords] + keys)
+                    self.binds.setdefault(root, []).extend(list(n.args) + [k.value for k in n.keywords] + keys +
+                                                           self._controlling_tests(n))
             elif isinstance(n, (ast.Assign, ast.AugAssign)):
                 targets = n.targets if isinstance(n, ast.Assign) else [n.target]
                 for t in targets:
                     if isinstance(t, ast.Subscript):
                         root, keys = self._container(t)
                         if root is not None:
-                            self.binds.setdefault(root, []).extend([n.value] + keys)
+                            self.binds.setdefault(root, []).extend([n.value] + keys + self._controlling_tests(n))
         self._memo = {}
+
+    def _controlling_tests(self, node):
+        """Tests of the if / while statements around a container mutation: what ends up in the container depends on them
+        (`if h in removed: keys.append(k)` makes keys depend on removed)."""
+        out = []
+        cur = getattr(node, '_parent', None)
+        while cur is not None and cur is not self.fn:
+            if isinstance(cur, (ast.If, ast.While)):
+                out.append(cur.test)
+            cur = getattr(cur, '_parent', None)
+        return out
 
     @staticmethod
     def _container(e):
